@@ -88,7 +88,10 @@ class IndicatorResourceUtilization(Indicator):
         z3_var_horiz = processscheduler.base.active_problem._horizon  # the z3 var
 
         if predefined_horiz is not None:
-            expression = z3.Sum(durations) * int(100 / predefined_horiz)
+            # integer percentage of the horizon: multiply first, then divide
+            # (int(100 / horizon) is 0 for an horizon > 100 and overshoots for,
+            # e.g., an horizon of 7)
+            expression = (z3.Sum(durations) * 100) / predefined_horiz
         else:
             expression = (z3.Sum(durations) * 100) / z3_var_horiz
 
